@@ -113,6 +113,8 @@ class Extractor:
     def try_bool(self, test, env):
         if isinstance(test, ast.Constant):
             return bool(test.value)
+        if isinstance(test, ast.Name) and isinstance(env.get(test.id), bool):
+            return env[test.id]
         if isinstance(test, ast.UnaryOp) and isinstance(test.op, ast.Not):
             v = self.try_bool(test.operand, env)
             return None if v is None else (not v)
@@ -229,8 +231,10 @@ class Extractor:
                 return self.expr(node.body, env)
             return self.expr(node.orelse, env)
         if isinstance(node, ast.Compare) or isinstance(node, ast.BoolOp):
-            v = self.try_bool(node, env)
-            if v is None:
+            # a decision kept in a local (`flag = a < b; ...; if flag:`) is decided like the branch
+            # test it will become: by the evaluator's seeds first, then by the values
+            v = self.choose(node, env)
+            if not isinstance(v, bool):
                 raise AlgError("undecided comparison %s" % self.text(node))
             return v
         raise AlgError("unmodelled expression %s: %s" % (type(node).__name__, self.text(node)[:80]))
